@@ -439,3 +439,22 @@ Definition spec_ok (i : input) (o : obs) : bool :=
   | Qun v, OQun _ rt _ => if all_bytes v then opt_eqb beqb rt (Some v) else true
   | _, _ => false
   end.
+
+(* ---- compact spelling of long tokens in generated cases ------------------- *)
+(* [pat n s] is the n-byte printable string whose i-th byte is
+   33 + (s + 7*i + i/64) mod 90 (no period of 64, [pat m s] is a prefix of
+   [pat n s] for m <= n); [setb p b t] replaces byte p of t. The harness spells
+   long bearer tokens with these two (it computes the same bytes in Go and hands
+   them to the real authenticator), so a 1000-byte token costs no literal. *)
+Fixpoint pat_from (n : nat) (i s : N) : bytes :=
+  match n with
+  | O => []
+  | S k => (33 + (s + 7 * i + i / 64) mod 90) :: pat_from k (i + 1) s
+  end.
+Definition pat (n : nat) (s : N) : bytes := pat_from n 0 s.
+Fixpoint setb (p : nat) (b : N) (t : bytes) : bytes :=
+  match t, p with
+  | [], _ => []
+  | _ :: r, O => b :: r
+  | x :: r, S k => x :: setb k b r
+  end.
